@@ -65,6 +65,29 @@ func ZZH1Behaviour() {
 		pending = false
 	}
 	src := sourceNoSemis(s)
+	if len(out) != len(src) {
+		// the printer protects a decimal integer that is the object of a dot access with parentheses (`1 .p` is
+		// written `(1).p`): the same program. Such a pair of parentheses, where the source has none, is skipped.
+		var o2 []RTok
+		var s2 []bool
+		j := 0
+		for k := 0; k < len(out); k++ {
+			srcParen := j < len(src) && s.Toks[src[j]].Type == token.LPAREN
+			if !srcParen && out[k].Text == "(" && k+3 < len(out) && out[k+1].Kind == RNumber && out[k+2].Text == ")" && out[k+3].Text == "." {
+				t := out[k+1]
+				t.NL = t.NL || out[k].NL
+				o2 = append(o2, t)
+				s2 = append(s2, semiBefore[k])
+				k += 2
+				j++
+				continue
+			}
+			o2 = append(o2, out[k])
+			s2 = append(s2, semiBefore[k])
+			j++
+		}
+		out, semiBefore = o2, s2
+	}
 	sym.Assert(len(out) == len(src), "output-token-sequence-equals-source")
 	if len(out) != len(src) {
 		return
